@@ -12,19 +12,19 @@ namespace Srad.Codec
 
 theorem C19_decodeW_total (w : Nat) (bs : Bytes) :
     (decodeW w bs).res ≠ .panic ∧ (decodeW w bs).alloc ≤ bs.length := by
-  sorry
+  exact ⟨decodeW_ne_panic w bs, decodeW_alloc_le w bs⟩
 
 theorem C19_decodeBool_total (bs : Bytes) :
     (decodeBool bs).res ≠ .panic ∧ (decodeBool bs).alloc ≤ 8 * bs.length := by
-  sorry
+  exact decodeBool_total bs
 
 theorem C19_decodeStr_total (valid : Bytes → Bool) (bs : Bytes) :
     (decodeStr valid bs).res ≠ .panic ∧ (decodeStr valid bs).alloc ≤ bs.length := by
-  sorry
+  exact ⟨decodeStr_ne_panic valid bs, decodeStr_alloc valid bs ▸ Nat.zero_le _⟩
 
 theorem C19_kindOf_total (valid : Bytes → Bool) (dt : DT) (pv : PV) :
     kindOf valid dt pv ≠ .panic := by
-  sorry
+  exact kindOf_ne_panic valid dt pv
 
 /-! ### length-exactness: a successful decode has exactly the declared number of elements and
 re-encoding it yields bytes that decode to the same array -/
@@ -32,16 +32,19 @@ re-encoding it yields bytes that decode to the same array -/
 theorem C19_decodeW_exact (w : Nat) (hw : 0 < w) (bs : Bytes) (l : List Nat)
     (h : (decodeW w bs).res = .ok l) :
     l.length * w = bs.length ∧ encodeW w l = bs ∧ (decodeW w (encodeW w l)).res = .ok l := by
-  sorry
+  have _ := hw  -- not needed: for w = 0 a successful decode forces bs = []
+  exact decodeW_exact w bs l h
 
 theorem C19_decodeBool_exact (bs : Bytes) (l : List Bool) (h : (decodeBool bs).res = .ok l) :
     l.length = unle (bs.take 4) ∧ (decodeBool (encodeBool l)).res = .ok l := by
-  sorry
+  have hl := decodeBool_ok_length bs l h
+  exact ⟨hl, decodeBool_encodeBool l (hl ▸ unle_take4_lt bs)⟩
 
 theorem C19_decodeStr_exact (valid : Bytes → Bool) (bs : Bytes) (l : List Bytes)
     (h : (decodeStr valid bs).res = .ok l) :
     l.length = bs.count 0 ∧ encodeStr l = bs ∧ (decodeStr valid (encodeStr l)).res = .ok l := by
-  sorry
+  obtain ⟨h1, h2⟩ := decodeStr_ok valid bs l h
+  exact ⟨h1, h2, h2.symm ▸ h⟩
 
 /-! ### non-vacuity (tests) -/
 example : (decodeBool [1, 0, 0, 0, 0x80, 0x00]).res = .ok [true] := by decide   -- trailing byte
